@@ -682,11 +682,17 @@ def _is_count_guard(expr, f, repo, depth=0):
   """A test that witnesses 'this invocation wrote a phase record'."""
   if isinstance(expr, ast.Compare) and len(expr.ops) == 1:
     l, r, op = expr.left, expr.comparators[0], expr.ops[0]
-    # len(phases) > prior   |   prior < len(phases)   |   len(phases) != prior
+    # len(phases) > prior | len(phases) != prior: the true branch is the
+    # witness; prior >= len(phases) | len(phases) == prior: the false branch
+    pol = 'T'
     if _is_len_phases(l, f) and isinstance(op, (ast.Gt, ast.NotEq)):
       o = r
     elif _is_len_phases(r, f) and isinstance(op, (ast.Lt, ast.NotEq)):
       o = l
+    elif _is_len_phases(r, f) and isinstance(op, (ast.GtE, ast.Eq)):
+      o, pol = l, 'F'
+    elif _is_len_phases(l, f) and isinstance(op, (ast.LtE, ast.Eq)):
+      o, pol = r, 'F'
     else:
       return False
     if isinstance(o, ast.Name):
@@ -699,13 +705,14 @@ def _is_count_guard(expr, f, repo, depth=0):
           n.ast, ast.Assign) and n.ast.value is defs[0]]
       inv = [n for n, c in lib.nodes_with_call(g) if last_attr(c) in (
           'execute_phase', '_execute_phase_once')]
-      return bool(dn) and bool(inv) and all(
-          g.dominated_by(i, lambda x: x is dn[0]) for i in inv)
+      return pol if bool(dn) and bool(inv) and all(
+          g.dominated_by(i, lambda x: x is dn[0]) for i in inv) else False
     return False
   if isinstance(expr, ast.Name) and depth < 2:
     defs = lib.resolve_local(f, expr.id)
     if defs:
-      return all(_is_count_guard(x, f, repo, depth + 1) for x in defs)
+      pols = {_is_count_guard(x, f, repo, depth + 1) for x in defs}
+      return pols.pop() if len(pols) == 1 else False
     if expr.id in lib.param_names(f.node):
       # every caller in the same module must pass such a guard
       idx = lib.param_names(f.node).index(expr.id)
@@ -714,9 +721,9 @@ def _is_count_guard(expr, f, repo, depth=0):
         for c in core.calls_in(g.node, attr=f.name):
           arg = core.get_kw(c, expr.id, idx - 1 if f.cls is not None else idx)
           sites.append((g, arg))
-      return bool(sites) and all(
-          a is not None and _is_count_guard(a, g, repo, depth + 1)
-          for g, a in sites)
+      pols = {(_is_count_guard(a, g, repo, depth + 1) if a is not None
+               else False) for g, a in sites}
+      return pols.pop() if sites and len(pols) == 1 else False
   return False
 
 
@@ -743,8 +750,8 @@ def r7_last_record(report, repo, rule='C01-R7'):
         ok = True
         for node in g.nodes_of(sub):
           def guard_edge(src, l, dst, _f=f):
-            return src.kind == 'test' and l == 'T' and \
-                _is_count_guard(src.ast, _f, repo)
+            return src.kind == 'test' and \
+                _is_count_guard(src.ast, _f, repo) == l
           if not g.dominated_by_edge(node, guard_edge):
             ok = False
         report.check(
